@@ -23,6 +23,8 @@ def explicit_panics(body):
     for bi, t in body.calls():
         c = callee_of(t)
         if c.startswith(PANICS) or c in UNWRAPS or t.get("fn") in UNWRAPS:
+            if "debug_assert" in t.get("m", ""):
+                continue   # present only in configurations with debug assertions; not the release semantics
             out.append((bi, c, t.get("m", "")))
     return out
 
